@@ -373,6 +373,7 @@ def plan(ctx):
         runs.append(("rand-mem", "-seed %d -n 1300 -len 40 -types khszl -policy mix" % seed, "mem"))
         runs.append(("rand-pebble", "-seed %d -n 250 -len 40 -types khszl -policy mix" % (seed + 7919), "pebble"))
         runs.append(("exh2", "-exh 2 -types khszl -policy local", "mem"))
+        runs.append(("exh3-ttl", "-exh 3 -types HSZLK -policy compact", "mem"))
     else:
         runs.append(("rand-mem", "-seed %d -n 12000 -len 60 -types khszl -policy mix" % seed, "mem"))
         runs.append(("rand-mem-long", "-seed %d -n 1500 -len 300 -types khszl -policy mix" % (seed + 31), "mem"))
@@ -380,6 +381,8 @@ def plan(ctx):
         runs.append(("rand-rocksdb", "-seed %d -n 1500 -len 60 -types khszl -policy mix" % (seed + 104729), "rocksdb"))
         runs.append(("exh3-local", "-exh 3 -types hszl -policy local", "mem"))
         runs.append(("exh3-compact", "-exh 3 -types hsz -policy compact", "mem"))
+        runs.append(("exh4-ttl-compact", "-exh 4 -types HSZLK -policy compact", "mem"))
+        runs.append(("exh3-ttl-local", "-exh 3 -types HSZLK -policy local", "mem"))
     return runs
 
 
